@@ -112,6 +112,7 @@ import (
 	ibcprovider "github.com/cosmos/interchain-security/v7/x/ccv/provider"
 	ibcproviderkeeper "github.com/cosmos/interchain-security/v7/x/ccv/provider/keeper"
 	providertypes "github.com/cosmos/interchain-security/v7/x/ccv/provider/types"
+	ccvtypes "github.com/cosmos/interchain-security/v7/x/ccv/types"
 )
 
 const (
@@ -786,11 +787,14 @@ func (app *App) PreBlocker(ctx sdk.Context, _ *abci.RequestFinalizeBlock) (*sdk.
 
 // BeginBlocker application updates every begin block
 func (app *App) BeginBlocker(ctx sdk.Context) (sdk.BeginBlock, error) {
+	defer ccvtypes.VerifTrace(ctx, "BeginDone")
 	return app.MM.BeginBlock(ctx)
 }
 
 // EndBlocker application updates every end block
 func (app *App) EndBlocker(ctx sdk.Context) (sdk.EndBlock, error) {
+	ccvtypes.VerifTrace(ctx, "EndStart")
+	defer ccvtypes.VerifTrace(ctx, "EndDone")
 	return app.MM.EndBlock(ctx)
 }
 
